@@ -183,7 +183,7 @@ func init() {
 		return &Check{ID: "C17",
 			Runs: []Run{{S: sc, Opt: map[Tier]Options{
 				Quick:    {Depth: 3, Budget: 150 * time.Second, ReplayEvery: 16},
-				Thorough: {Depth: 5, Budget: 25 * time.Minute, ReplayEvery: 32, MaxStates: 300000},
+				Thorough: {Depth: 5, Budget: 12 * time.Minute, ReplayEvery: 32, MaxStates: 300000},
 			}}},
 			Owns:        ownsAny("supplyquery"),
 			Assumptions: []string{"which HTTP route wins in the REST gateway is router configuration and not part of the state space; the gRPC query servers (incl. the *Overwrite methods that shadow the bank endpoints) are what is checked", "EnterpriseSupply has uint64 fields: not judged beyond 2^64 nund"},
